@@ -101,11 +101,13 @@ def isolate(unit_path, final):
     """A function whose obligations fail in the whole-unit run is verified once more on its own (same text, same
     contracts, only this function's queries): Z3's search depends on everything else in the file, and a proof found
     in either configuration is a proof.  Failures that persist are the ones reported."""
+    if final.get('verify_only'):
+        return   # a derived unit already verifies one function on its own
     for fn in sorted({f['fn'] for f in final['failures'] if f.get('fn')}):
         pat = fn_pattern(fn)
         if not pat:
             continue
-        for seed in (None, 7, 1234):
+        for seed in (None, 7):
             r = run_verus_once(unit_path, only_fn=pat, seed=seed)
             if r.get('status') == 'ok' and r.get('verified', 0) > 0:
                 final['failures'] = [f for f in final['failures'] if f.get('fn') != fn]
